@@ -112,6 +112,21 @@ pub fn run(ctx: &mut Ctx, _replay: Option<&[String]>) {
         let o2 = in_child(|| unsafe { !ldpc_toolbox_encoder_ctor(m.as_ptr(), p.as_ptr()).is_null() });
         ctx.emit(&format!("c19 nofile {}", enc_text(missing)), &format!("{} {}", o1, o2), true, &["unreadable-file"]);
     }
+    // a file that cannot be read as text: the valid alist with one invalid UTF-8 byte in a line the parser ignores (the weight lines)
+    {
+        let dir = std::env::var("VERIF_ROOT").map(|r| format!("{}/work", r)).unwrap_or("/tmp".into());
+        let path = format!("{}/c19-{}-nonutf8.alist", dir, std::process::id());
+        let mut bytes = good.clone().into_bytes();
+        let second_line = bytes.iter().position(|&b| b == b'\n').unwrap() + 1;
+        bytes[second_line] = 0xFF;
+        std::fs::write(&path, &bytes).unwrap();
+        if let (Some(m), Some(nm), Some(p)) = (cs(&path), cs("Phif64"), cs("")) {
+            let o1 = in_child(|| unsafe { !ldpc_toolbox_decoder_ctor(m.as_ptr(), nm.as_ptr(), p.as_ptr()).is_null() });
+            let o2 = in_child(|| unsafe { !ldpc_toolbox_encoder_ctor(m.as_ptr(), p.as_ptr()).is_null() });
+            ctx.emit("c19 nofile not-utf8", &format!("{} {}", o1, o2), true, &["unreadable-file"]);
+        }
+        let _ = std::fs::remove_file(&path);
+    }
     // ---------------------------------------------------------------- decode: all 36 names, call sequences on one handle
     for imp in &impls {
         for _ in 0..ctx.scale(12, 1500) {
